@@ -10,79 +10,324 @@ sibling type with the same variant name or field set.  The names that occur on b
 import re
 from lib.facts import find, walk, is_node, path_of, render, render_pat, last_seg
 from lib import fxn as X
+from lib.inline import inline_item, inlined_name
 
 WIDTH = r"(u8|i8|u16|i16|u32|i32|u64|i64|u128|i128|f32|f64)"
 
 
-def label(e):
-    """field label of a written expression"""
+# iterator adapters whose closure runs once per element: `xs.iter().try_for_each(|x| ..)` is the loop `for x in xs { .. }`
+ITER_ADAPTERS = ("for_each", "try_for_each", "map", "filter_map", "flat_map", "inspect", "all", "any", "try_fold", "fold", "map_while", "take_while", "skip_while", "filter")
+# methods between a collection and the iteration over it
+ITER_PASS = ("iter", "iter_mut", "into_iter", "copied", "cloned", "enumerate", "rev", "by_ref", "peekable", "as_slice", "as_ref", "to_vec", "clone", "borrow", "deref")
+
+
+def label(e, env=None):
+    """field label of a written expression; `env` maps a local (loop variable, parameter of an expanded helper) to the label of what it stands for"""
     if not is_node(e):
         return "#"
     t = e[0]
     if t in ("un", "ref"):
-        return label(e[2])
+        return label(e[2], env)
     if t == "cast":
-        return label(e[1])
+        return label(e[1], env)
     if t == "paren":
-        return label(e[1])
+        return label(e[1], env)
     if t == "field":
         return e[2] if isinstance(e[2], str) else str(e[2])
     if t == "path":
-        return e[1].split("::")[-1] if re.match(r"^[a-z_][A-Za-z0-9_]*$", e[1].split("::")[-1]) else "#"
+        name = e[1].split("::")[-1]
+        if env and e[1] in env:
+            return env[e[1]]
+        return name if re.match(r"^[a-z_][A-Za-z0-9_]*$", name) else "#"
+    if t == "index" and env is not None and not (is_node(e[2]) and e[2][0] == "range"):
+        b = label(e[1], env)
+        return "elem(%s)" % b if b != "#" else "#"
     if t == "mcall":
         if e[2] == "len":
-            return "len(%s)" % label(e[1])
+            return "len(%s)" % label(e[1], env)
         if e[2] in ("clone", "into", "to_owned", "as_bytes", "as_slice", "borrow"):
-            return label(e[1])
+            return label(e[1], env)
         return "#"
     if t == "if":
         for n in walk(e[1]):
             if n[0] in ("field", "path"):
-                l = label(n)
+                l = label(n, env)
                 if l not in ("#", "self"):
                     return l
         return "#"
     return "#"
 
 
-def write_seq(node):
-    out = []
-    for n in walk(node):
-        if n[0] == "mcall":
+def _iter_base(e):
+    """the collection an iterator expression walks over: `&xs`, `xs.iter()`, `xs.iter().copied().enumerate()` -> xs"""
+    while is_node(e):
+        if e[0] == "ref" or (e[0] == "un" and e[1] == "*"):
+            e = e[2]
+        elif e[0] == "paren":
+            e = e[1]
+        elif e[0] == "mcall" and e[2] in ITER_PASS and not e[4]:
+            e = e[1]
+        else:
+            break
+    return e
+
+
+def _loop_var(pat):
+    """the name bound to the element by a loop / closure pattern: `x`, `&x`, `(i, x)` (enumerate)"""
+    p = pat
+    for _ in range(6):
+        if not is_node(p):
+            return None
+        if p[0] == "pref":
+            p = p[2]
+        elif p[0] == "ptype":
+            p = p[1]
+        elif p[0] == "ptuple" and p[1]:
+            p = p[1][-1]
+        else:
+            break
+    return p[1] if is_node(p) and p[0] == "pident" else None
+
+
+def _bind_elem(pat, it, env):
+    """`env` extended by the element variable of `for pat in it` / of a closure handed to an adapter of the iterator `it`"""
+    base = _iter_base(it)
+    if is_node(base) and base[0] == "range":
+        return env
+    lb = label(base, env)
+    v = _loop_var(pat)
+    if lb == "#" or v is None:
+        return env
+    env = dict(env)
+    env[v] = "elem(%s)" % lb
+    return env
+
+
+def _simple_place(e):
+    while is_node(e) and (e[0] in ("ref", "paren", "cast") or (e[0] == "un" and e[1] == "*")):
+        e = e[2] if e[0] in ("ref", "un") else e[1]
+    return is_node(e) and e[0] in ("path", "field")
+
+
+def _param_env(block, env):
+    """an expanded helper (lib.inline) starts with `let <param> = <argument>;`: the parameter stands for the argument"""
+    env = dict(env)
+    for st in block[1]:
+        if not (is_node(st) and st[0] == "let" and st[2] is not None and _simple_place(st[2])):
+            break
+        v = _loop_var(st[1]) if not (is_node(st[1]) and st[1][0] == "ptuple") else None
+        if v is None:
+            break
+        lb = label(st[2], env)
+        if lb != "#":
+            env[v] = lb
+        else:
+            env.pop(v, None)
+    return env
+
+
+def _wseq(n, env, out):
+    if isinstance(n, dict):
+        for v in n.values():
+            _wseq(v, env, out)
+        return
+    if not isinstance(n, list):
+        return
+    if is_node(n):
+        t = n[0]
+        if t == "for":
+            _wseq(n[2], env, out)
+            _wseq(n[3], _bind_elem(n[1], n[2], env), out)
+            return
+        if t == "mcall":
             m = re.match(r"^write_%s$" % WIDTH, n[2])
             if m and n[4]:
-                out.append((m.group(1), label(n[4][0])))
+                out.append((m.group(1), label(n[4][0], env)))
             elif n[2] in ("write_all", "extend_from_slice") and n[4]:
-                out.append(("bytes", label(n[4][0])))
+                out.append(("bytes", label(n[4][0], env)))
+            _wseq(n[1], env, out)
+            for a in n[4]:
+                if is_node(a) and a[0] == "closure" and n[2] in ITER_ADAPTERS and a[1]:
+                    _wseq(a[2], _bind_elem(a[1][-1], n[1], env), out)
+                else:
+                    _wseq(a, env, out)
+            return
+        if t == "block" and inlined_name(n):
+            env = _param_env(n, env)
+    for x in n:
+        _wseq(x, env, out)
+
+
+def write_seq(node, env=None):
+    """(width, label) of every write_X / write_all in source order.  A loop over a collection - `for x in xs`, `xs.iter().try_for_each(|x| ..)`,
+    `for_each`, `map(..).collect()`, `for i in 0..xs.len() { .. xs[i] }` - writes `elem(xs)`; a helper expanded by lib.inline has its
+    parameters bound to the labels of the arguments"""
+    out = []
+    _wseq(node, dict(env or {}), out)
     return out
 
 
-def read_seq(node):
-    """(width, bound name) in source order for `let NAME = <..>.read_X()..` and `read_exact(&mut NAME)`; renamed through struct literals"""
-    seq = []
-    for n in walk(node):
-        if n[0] == "let" and len(n) >= 3 and n[2] is not None and is_node(n[1]) and n[1][0] in ("pident", "ptype"):
+def _value_name(e):
+    """the local whose value an expression yields: `x`, `Ok(x)`, `x?`, `x as T`, `&x`, `x.clone()`, `x.into_iter().collect()`"""
+    for _ in range(10):
+        if not is_node(e):
+            return None
+        t = e[0]
+        if t == "path":
+            return e[1] if re.match(r"^[a-z_][A-Za-z0-9_]*$", e[1]) else None
+        if t in ("try", "paren", "cast"):
+            e = e[1]
+        elif t in ("ref", "un"):
+            e = e[2]
+        elif t == "call" and last_seg(path_of(e[1]) or "") in ("Ok", "Some", "Box::new", "new") and len(e[2]) == 1:
+            e = e[2][0]
+        elif t == "mcall" and e[2] in ("clone", "into", "to_owned", "to_vec", "into_iter", "collect", "into_boxed_slice", "unwrap") and not e[4]:
+            e = e[1]
+        else:
+            return None
+    return None
+
+
+class _Reads:
+    """reads of a reader region in source order, each labelled by what it is bound to.
+
+    `let NAME = <.. first read_X ..>` -> NAME (as before); a read inside a struct literal field `T { f: r.read_X()? }` -> f; a read handed to
+    `xs.push(..)` / produced by the closure of an iterator adapter bound to xs (`let xs = (0..n).map(|_| r.read_X()).collect()`) -> elem(xs).
+    Aliases: `xs.push(NAME)` makes NAME an element of xs; a block (an expanded helper, lib.inline) whose value is a local of its own -
+    `let args = { let mut regs = ..; ..; Ok(regs) }?` - makes that local the let-bound name.  A name that is the value of a struct literal
+    field takes the field's name (as before), which wins over the aliases."""
+
+    def __init__(self):
+        self.seq = []        # [width, label, final]
+        self.alias = {}
+
+    def visit(self, n, ctx):
+        if isinstance(n, dict):
+            for v in n.values():
+                self.visit(v, None)
+            return
+        if not isinstance(n, list):
+            return
+        if not is_node(n):
+            for x in n:
+                self.visit(x, ctx)
+            return
+        t = n[0]
+        if t == "let":
+            if len(n) < 3 or n[2] is None:
+                return
             p = n[1]
-            while p[0] == "ptype":
+            while is_node(p) and p[0] == "ptype":
                 p = p[1]
-            if p[0] != "pident":
-                continue
-            for mc in walk(n[2]):
-                if mc[0] == "mcall":
-                    m = re.match(r"^read_%s$" % WIDTH, mc[2])
-                    if m:
-                        seq.append((m.group(1), p[1].lstrip("_")))
-                        break
-        elif n[0] == "mcall" and n[2] == "read_exact" and n[4]:
-            seq.append(("bytes", label(n[4][0])))
-    # rename through struct literals: `T { field: NAME }`
-    ren = {}
-    for s in find(node, "struct"):
-        for f in s[2]:
-            v = f[1]
-            if is_node(v) and v[0] == "path" and v[1] != f[0]:
-                ren.setdefault(v[1], f[0])
-    return [(w, ren.get(l, l)) for w, l in seq]
+            cell = [p[1].lstrip("_"), False] if is_node(p) and p[0] == "pident" else None
+            self.visit(n[2], cell)
+            if len(n) > 3 and n[3] is not None:
+                self.visit(n[3], None)
+            return
+        if t == "expr":
+            self.visit(n[1], ctx)
+            return
+        if t in ("block", "unsafe"):
+            stmts = n[1]
+            bound = set()
+            for st in stmts:
+                if is_node(st) and st[0] == "let":
+                    bound |= {x[1].lstrip("_") for x in walk(st[1]) if x[0] == "pident"}
+            for k, st in enumerate(stmts):
+                tail = k == len(stmts) - 1 and is_node(st) and st[0] == "expr" and not st[2]
+                if tail and ctx is not None and ctx[0] is not None:
+                    v = _value_name(st[1])
+                    if v is not None and v.lstrip("_") in bound:
+                        self.alias.setdefault(v.lstrip("_"), ctx[0])
+                    self.visit(st[1], ctx)
+                else:
+                    self.visit(st, None)
+            return
+        if t in ("for", "while", "loop"):
+            for x in n[1:]:
+                self.visit(x, None)
+            return
+        if t == "struct":
+            for f in n[2]:
+                self.visit(f[1], [f[0], True])
+            if len(n) > 3:
+                self.visit(n[3], None)
+            return
+        if t == "mcall":
+            name, recv, args = n[2], n[1], n[4]
+            m = re.match(r"^read_%s$" % WIDTH, name)
+            if m:
+                if ctx is not None and ctx[0] is not None:
+                    self.seq.append([m.group(1), ctx[0], ctx[1]])
+                    ctx[0] = None
+                self.visit(recv, None)
+                for a in args:
+                    self.visit(a, None)
+                return
+            if name == "read_exact" and args:
+                self.seq.append(["bytes", label(args[0]), False])
+                self.visit(recv, None)
+                return
+            if name in ("push", "push_back", "push_front") and len(args) == 1 and label(recv) != "#":
+                el = "elem(%s)" % label(recv)
+                v = _value_name(args[0])
+                if v is not None:
+                    self.alias.setdefault(v.lstrip("_"), el)
+                else:
+                    self.visit(args[0], [el, False])
+                self.visit(recv, None)
+                return
+            if name == "extend" and len(args) == 1 and label(recv) != "#":
+                self.visit(args[0], ["elem(%s)" % label(recv), False])
+                self.visit(recv, None)
+                return
+            self.visit(recv, ctx)
+            for a in args:
+                if is_node(a) and a[0] == "closure" and name in ITER_ADAPTERS:
+                    if ctx is not None and ctx[0] is not None and not ctx[0].startswith("elem("):
+                        cell = ["elem(%s)" % ctx[0], ctx[1]]
+                        self.visit(a[2], cell)
+                        if cell[0] is None:
+                            ctx[0] = None
+                    else:
+                        self.visit(a[2], ctx)
+                else:
+                    self.visit(a, ctx)
+            return
+        if t == "closure":
+            self.visit(n[2], ctx)
+            return
+        if t == "macro":
+            return
+        for x in n[1:]:
+            self.visit(x, ctx)
+
+    def result(self, node):
+        ren, used = {}, set()
+        for s in find(node, "struct"):
+            for f in s[2]:
+                v = f[1]
+                if is_node(v) and v[0] == "path":
+                    used.add(v[1].lstrip("_"))
+                    if v[1] != f[0]:
+                        ren.setdefault(v[1], f[0])
+                        ren.setdefault(v[1].lstrip("_"), f[0])
+
+        def resolve(l, depth=0):
+            m = re.match(r"^(elem|len)\((.*)\)$", l)
+            if m:
+                return "%s(%s)" % (m.group(1), resolve(m.group(2), depth))
+            if l in used or depth > 6 or l not in self.alias:
+                return ren.get(l, l)
+            return resolve(self.alias[l], depth + 1)
+        return [(w, l if final else resolve(l)) for w, l, final in self.seq]
+
+
+def read_seq(node):
+    """(width, label) in source order for the reads of a region; see _Reads"""
+    r = _Reads()
+    r.visit(node, None)
+    return r.result(node)
 
 
 def pattern_renames(pat):
@@ -102,28 +347,31 @@ def pattern_renames(pat):
 def rename_labels(seq, ren):
     if not ren:
         return seq
-    out = []
-    for w, l in seq:
-        m = re.match(r"^len\((.*)\)$", l)
+
+    def rn(l):
+        m = re.match(r"^(len|elem)\((.*)\)$", l)
         if m:
-            out.append((w, "len(%s)" % ren.get(m.group(1), m.group(1))))
-        else:
-            out.append((w, ren.get(l, l)))
-    return out
+            return "%s(%s)" % (m.group(1), rn(m.group(2)))
+        return ren.get(l, l)
+    return [(w, rn(l)) for w, l in seq]
 
 
 def regions(it):
-    """reader regions of a function: (description, node, variants built)"""
-    out = [("%s" % it["name"], it["body"])]
+    """reader regions of a function: (description, node, lies inside an expanded helper)"""
+    out = [("%s" % it["name"], it["body"], 0)]
+    inl = set()
+    for n in walk(it["body"]):
+        if n[0] == "block" and inlined_name(n):
+            inl |= {id(x) for x in walk(n)}
     k = 0
     for n in walk(it["body"]):
         if n[0] in ("for", "while", "loop"):
             body = n[3] if n[0] == "for" else (n[2] if n[0] == "while" else n[1])
             k += 1
-            out.append(("%s:loop%d" % (it["name"], k), body))
+            out.append(("%s:loop%d" % (it["name"], k), body, 1 if id(n) in inl else 0))
         elif n[0] == "match":
             for a in n[2]:
-                out.append(("%s:arm[%s]" % (it["name"], render_pat(a[0])[:40]), a[2]))
+                out.append(("%s:arm[%s]" % (it["name"], render_pat(a[0])[:40]), a[2], 1 if id(n) in inl else 0))
     return out
 
 
@@ -155,14 +403,96 @@ def compare(ws, rs):
     return None
 
 
+def codec_helpers(items):
+    """{name: fn item} of the functions a codec may hand part of a record to: the free functions of the given items and the associated
+    functions without a receiver (`Self::read_operands(cur, n)`), the latter only under a name that is unique among all of them"""
+    helpers, assoc = {}, {}
+    for it in items:
+        if it.get("body") is None:
+            continue
+        if it["k"] == "fn":
+            helpers.setdefault(it["name"], it)
+        elif it["k"] == "method" and not it.get("trait") and it["name"] != "write_to":
+            inputs = it["sig"]["inputs"]
+            if inputs and all(isinstance(p_, list) and len(p_) == 2 and p_[0] != "self" and is_node(p_[0]) for p_ in inputs):
+                assoc.setdefault(it["name"], []).append(it)
+    for name, its in assoc.items():
+        if len(its) == 1 and name not in helpers:
+            h = dict(its[0])
+            h["assoc"] = True
+            helpers[name] = h
+    return helpers
+
+
+def expand_helpers(it, helpers, depth=2, stop=()):
+    """copy of a fn / method item with the calls to `helpers` replaced by their bodies (lib.inline: parameters bound by `let`, block marked
+    `inlined:<name>`); calls of associated helpers `Self::h(..)` / `Type::h(..)` are followed like calls of free functions"""
+    import copy
+    assoc = {n for n, h in helpers.items() if h.get("assoc")}
+    body = it["body"]
+    if assoc and any(n[0] == "call" and is_node(n[1]) and n[1][0] == "path" and "::" in n[1][1] and n[1][1].split("::")[-1] in assoc for n in walk(body)):
+        body = copy.deepcopy(body)
+        for n in walk(body):
+            if n[0] == "call" and is_node(n[1]) and n[1][0] == "path" and "::" in n[1][1]:
+                segs = n[1][1].split("::")
+                if segs[-1] in assoc and len(segs) == 2 and re.match(r"^[A-Z]\w*$", segs[0]):
+                    n[1] = ["path", segs[-1]]
+        it = dict(it, body=body)
+    try:
+        return inline_item(it, helpers, depth=depth, stop=stop, closures=False)
+    except RecursionError:
+        return it
+
+
+def expand_self_methods(it, items, depth=2):
+    """copy of a method item in which calls `self.h(args)` of inherent methods of the same type are replaced by
+    `{ let <param> = <arg>; .. <body of h> }` (marked `inlined:h` like lib.inline does): `self` inside the helper is the caller's `self`, so a
+    step of the method that was moved into a private `&mut self` helper is seen where it was"""
+    import copy
+    from lib.inline import _param_lets
+    th = X.type_head(it.get("self") or "")
+    methods = {}
+    for m_ in items:
+        if m_["k"] == "method" and not m_.get("trait") and m_.get("body") is not None and X.type_head(m_.get("self") or "") == th:
+            inputs = m_["sig"]["inputs"]
+            if inputs and isinstance(inputs[0], list) and inputs[0] and inputs[0][0] == "self":
+                methods.setdefault(m_["name"], m_)
+    log = []
+
+    def sub(e, d, stack):
+        if isinstance(e, dict):
+            return {k: sub(v, d, stack) for k, v in e.items()}
+        if not isinstance(e, list):
+            return e
+        out = [sub(x, d, stack) for x in e]
+        if d > 0 and is_node(out) and out[0] == "mcall" and out[1] == ["path", "self"] and out[2] in methods and out[2] not in stack:
+            h = methods[out[2]]
+            lets = _param_lets({"sig": {"inputs": h["sig"]["inputs"][1:]}}, out[4])
+            if lets is not None:
+                log.append(out[2])
+                return ["block", lets + sub(copy.deepcopy(h["body"]), d - 1, stack + (out[2],)), "inlined:%s" % out[2]]
+        return out
+    res = dict(it)
+    res["body"] = sub(copy.deepcopy(it["body"]), depth, (it["name"],))
+    res["inlined"] = sorted(set(log))
+    return res
+
+
 def run_r7(F, rep, crate):
     rep.rule("C07-R7", "record codecs agree field by field: for every writer (T::write_to, per variant) the fields it writes occur in the same order and width in the "
                       "reader that rebuilds the record and in the twin writer of the sibling type (compile-side EncodedInstr/ConstEntry vs load-side DecodedInstr/ParsedConstEntry)")
     core = [it for it in F.syn(crate) if it.get("mod", "").startswith("program")]
+    # private helpers are transparent on both sides: `write_operands(w, args)?` in a writer arm and `read_operands(&mut cur, n)?` in a reader arm
+    # are looked at as their bodies with the parameters bound to the arguments (two levels)
+    helpers = codec_helpers(core)
+
+    def expanded(it):
+        return expand_helpers(it, helpers)
     writers = {}      # key -> (seq, where)
     for it in core:
         if it["k"] == "method" and it["name"] == "write_to" and not it.get("trait") and it.get("body"):
             th = X.type_head(it["self"])
+            it = expanded(it)
             arms = None
             for m in find(it["body"], "match"):
                 if is_node(m[1]) and render(m[1]) in ("self", "*self") and len(m[2]) >= 3:
@@ -178,12 +508,13 @@ def run_r7(F, rep, crate):
     readers = []
     for it in core:
         if it["k"] in ("fn", "method") and it.get("body") and it["name"] != "write_to":
+            it = expanded(it)
             if not any(n[0] == "mcall" and re.match(r"^read_", n[2]) for n in walk(it["body"])):
                 continue
-            for desc, node in regions(it):
+            for desc, node, foreign in regions(it):
                 rs = read_seq(node)
                 if rs:
-                    readers.append((desc, rs, built(node)))
+                    readers.append((desc, rs, built(node), foreign))
     n_wr = n_ww = 0
     paired = {}
     for key, (ws, where) in sorted(writers.items()):
@@ -193,24 +524,32 @@ def run_r7(F, rep, crate):
         variant = key.split("::")[-1]
         # (a) reader: the region that builds this variant (enum writers) else the region sharing most names; smallest such region
         cands = []
-        for desc, rs, bl in readers:
+        for desc, rs, bl, nexp in readers:
             ov = len(labels & {l for _, l in rs})
             if "::" in key:
                 if variant in bl and ov >= 1:
-                    cands.append((0, -ov, len(rs), desc, rs))
+                    # the region that builds this variant and as few others as possible (the decoder arm, not the whole decoder: the
+                    # operand names of the other arms must not count as overlap), then the largest overlap, then the smallest region
+                    cands.append((len({x for x in bl if "::" in x}), -ov, len(rs), nexp, desc, rs))
             elif ov >= min(2, len(labels)):
-                cands.append((0 if key in bl else 1, -ov, len(rs), desc, rs))
+                cands.append((0 if key in bl else 1, -ov, len(rs), nexp, desc, rs))
         if cands:
-            cands.sort(key=lambda c: c[:3])
-            paired[key] = (cands[0][3], cands[0][4], False)
+            # ties (the same region seen in a helper and, expanded, in its callers): the function the code is written in
+            cands.sort(key=lambda c: c[:5])
+            paired[key] = (cands[0][4], cands[0][5], False)
     # a reader that binds the fields to bare locals and builds no struct (`let id = ..; let reg = ..; map.insert(id, reg)`) shares no
     # name with the writer once the locals are renamed: pair a still unpaired struct writer with the only unclaimed loop region that
     # reads as many items as the writer writes, and compare the widths position by position
     claimed = {d for d, _, _ in paired.values()}
+    claimed_rs = {tuple(r) for _, r, _ in paired.values()}
     for key, (ws, where) in sorted(writers.items()):
         if key in paired or "::" in key or len(ws) < 3 or not {l for _, l in ws if l != "#" and not l.startswith("len(")}:
             continue
-        shaped = [(desc, rs) for desc, rs, bl in readers if ":loop" in desc and desc not in claimed and len(rs) == len(ws) and not bl]
+        shaped, seen_rs = [], set()
+        for desc, rs, bl, nexp in sorted(readers, key=lambda r: r[3]):
+            if ":loop" in desc and desc not in claimed and len(rs) == len(ws) and not bl and tuple(rs) not in seen_rs and tuple(rs) not in claimed_rs:
+                seen_rs.add(tuple(rs))          # the loop of a helper is seen in the helper and, expanded, in each of its callers: one region
+                shaped.append((desc, rs))
         if len(shaped) == 1:
             paired[key] = (shaped[0][0], shaped[0][1], True)
         elif len(shaped) > 1:
@@ -308,7 +647,9 @@ def run_r8(F, rep, crate, tier="quick"):
     # the entry records the padded offset, and the blob is resized to it before the bytes are appended
     cc = [x for x in core if x["k"] == "method" and x["name"] == "compile_const" and x.get("body") and "CompileCtx" in (x.get("self") or "")]
     if rep.check(len(cc) == 1, "C07-R8", "anchor:CompileCtx::compile_const", "CompileCtx::compile_const not found (%d)" % len(cc)):
-        body = cc[0]["body"]
+        # the padding step may live in a private `&mut self` helper (`self.pad_blob(align)`) or a free function: looked at where it is called
+        # (never entering align_up itself: its call is what is looked for)
+        body = expand_helpers(expand_self_methods(cc[0], core), codec_helpers([x for x in core if (x.get("mod") or "").startswith("program")]), stop=(it["name"],))["body"]
         padded = None
         for st in find(body, "let"):
             if st[1][0] == "pident" and st[2] is not None and any((path_of(c[1]) or "").endswith("align_up") for c in find(st[2], "call")):
